@@ -223,6 +223,31 @@ Theorem C19_send_faulty_connection : forall (c : cstate) typ len (f : wfault) go
 Proof. exact client_send_io_prefix. Qed.
 Print Assumptions C19_send_faulty_connection.
 
+(* reading a header is all-or-nothing, and a failed header read uses the connection up.  The peer
+   sends frames back to back; the connection delivers them in pieces with a pause longer than the
+   read deadline between consecutive pieces (a Read returns a deadline error, later the rest does
+   arrive).  For a client in any state and any placement of the pauses - inside a header, inside a
+   payload, between frames, several of them - the headers its read side reports are an initial part
+   of the headers at the frame boundaries of what the peer sent: nothing is ever decoded from ten
+   bytes that do not start a frame ... *)
+Theorem C19_paused_stream_reports_frame_headers : forall (c : cstate) (pieces : list (list N)),
+  exists rest, frame_headers (concat pieces) = client_paused_log c pieces ++ rest.
+Proof. exact client_paused_log_prefix. Qed.
+Print Assumptions C19_paused_stream_reports_frame_headers.
+
+(* ... where the headers at the frame boundaries are: the decoding of the first 10 bytes, then
+   those of the stream behind that frame's payload *)
+Theorem C19_frame_headers_layout : forall s h t, frame_headers s = h :: t ->
+  hdr_decode (firstn 10 s) = HOk h /\ t = frame_headers (skipn (10 + N.to_nat (h_len h)) s).
+Proof. exact frame_headers_unfold. Qed.
+Print Assumptions C19_frame_headers_layout.
+
+(* ... and a pause inside the very first header means that no header is reported at all *)
+Theorem C19_paused_inside_first_header : forall (c : cstate) p ps, (length p < 10)%nat ->
+  client_paused_log c (p :: ps) = [].
+Proof. exact client_paused_log_split_header. Qed.
+Print Assumptions C19_paused_inside_first_header.
+
 (* ---------------------------------------------------------------- Part 2: tables (generic) *)
 
 (* every message type the library can instantiate reports that same type code *)
@@ -311,6 +336,17 @@ Example C19_example_send :
   /\ client_write_header_io c (mkHdr 1 62 0 7) (WFault 4 true) = ([4; 62; 0; 0], false)
   /\ client_send_io c 72 2 WNoFault = Some ([8; 72; 0; 0; 0; 12; 0; 0; 0; 2; 0; 0], true).
 Proof. vm_compute. repeat split; reflexivity. Qed.
+(* a connection event (type 63, 2 payload bytes here) and a KEEPALIVE: delivered whole both are
+   reported; with a pause after 4 bytes nothing is (bytes 4..13 would read as another header);
+   with the pause inside the second header only the first is *)
+Example C19_example_paused :
+  let c := client_run (c_new 2 true) [EvConn] in
+  let f1 := [4; 63; 0; 0; 0; 12; 0; 0; 4; 210; 7; 7] in let f2 := [8; 62; 0; 0; 0; 10; 0; 0; 0; 9] in
+  client_paused_log c [f1 ++ f2] = [mkHdr 1 63 2 1234; mkHdr 2 62 0 9]
+  /\ client_paused_log c [firstn 4 f1; skipn 4 f1 ++ f2] = []
+  /\ client_paused_log c [f1 ++ firstn 3 f2; skipn 3 f2] = [mkHdr 1 63 2 1234]
+  /\ frame_headers (skipn 4 f1 ++ f2) <> [].
+Proof. vm_compute. repeat split; try reflexivity. discriminate. Qed.
 (* the version field is not checked by the encoder (not demanded by the property; recorded) *)
 Example C19_note_version_unchecked :
   exists h b, wf_hdr h /\ hdr_encode h = Some b /\ hdr_decode b <> HOk h.
